@@ -20,7 +20,7 @@ RULE = (
 )
 ASSUMPTIONS = list(refcodec.TRUSTED_BASE) + ["the decoder accepts well-formed chunks the prose does not list (FLGS, SFGS, SLnK) and never demands an undocumented one"]
 REQUIRED_LABELS = {
-    "quick": ["project", "synth", "payload_nondefault", "options_set", "links", "cells", "neg_min_ctl_at_min", "metamodule_nested_2_levels", "metamodule_nested_3_levels"],
+    "quick": ["project", "synth", "payload_nondefault", "options_set", "links", "cells", "neg_min_ctl_at_min", "metamodule_nested_2_levels", "metamodule_nested_3_levels", "written_from_loaded_and_edited_object"],
     "thorough": ["project", "synth", "payload_nondefault", "options_set", "links", "cells", "neg_min_ctl_at_min", "sampler_with_samples", "metamodule", "gap"] + ["type_" + t for t in build.attachable_types()],
 }
 
@@ -32,7 +32,7 @@ def exhaustive(tier):
 def plan(tier):
     n, per = (16, 120) if tier == "quick" else (16, 2000)
     types = build.attachable_types()
-    return [{"kind": "random", "examples": per, "sweep": types[i::n]} for i in range(n)]
+    return [{"kind": "random", "examples": per, "sweep": types[i::n]} for i in range(n)] + [{"kind": "edited", "examples": 25 if tier == "quick" else 400} for _ in range(4)]
 
 
 nested_meta = build.nested_meta
@@ -113,8 +113,58 @@ def check_module_spec(ctx, ms):
         raise PropertyViolation("C03.structure.stream_tiles", "synth: %s" % e, key="C03.structure.stream_tiles")
 
 
+def check_edited_case(ctx, case):
+    """A file is loaded (fixture or generated), edited through the API, and written again: that file too
+    is decoded by the independent decoder and compared with the edited object."""
+    from checks import c05, c06
+    from vlib import edits
+
+    obj = c05.load(c06.base_bytes(case))
+    saves = case.get("saves") or [None] * len(case["edits"])
+    for e, pre in zip(case["edits"], saves):
+        if pre == "read":
+            obj.read()
+        edits.apply_edit(obj, e)
+    # in every second case the recorded material of the Samplers in the object changes size after the load
+    # (data replaced by a shorter / longer take, another sample format)
+    if len(repr(case)) % 2 == 0:
+        mods = [obj.module] if type(obj).__name__ == "Synth" else [m_ for m_ in obj.modules if m_ is not None]
+        for m_ in mods:
+            if type(m_).__name__ == "Sampler":
+                for smp in m_.samples:
+                    if smp is not None:
+                        smp.data = bytes(smp.data)[: len(smp.data) // 2] if len(smp.data) > 8 else bytes(smp.data) + bytes(range(24))
+                        smp.format = m_.Format.int16 if smp.format != m_.Format.int16 else m_.Format.int8
+                        ctx.label("sample_resized_after_load")
+                        break
+    snap = snapshot.snap(obj)
+    data = obj.read()
+    from vlib.chunktools import ChunkFormatError
+
+    try:
+        conform(data, snap, "edited %s" % case["src"])
+    except ChunkFormatError as e:
+        raise PropertyViolation("C03.structure.stream_tiles", "edited object: %s" % e, key="C03.structure.stream_tiles")
+
+
 def run_shard(ctx, desc):
     from checks import c01
+
+    if desc.get("kind") == "edited":
+        from checks import c06
+
+        def body_e(case):
+            ctx.case()
+            check_edited_case(ctx, case)
+            ctx.label("written_from_loaded_and_edited_object")
+            ctx.mark_nontrivial(case)
+            if len(repr(case)) < 1500:
+                ctx.sample(case)
+
+        for focus in (None, "Sampler", "MetaModule"):
+            if not run_property(ctx, c06.edit_case(focus=focus), body_e, desc["examples"], tag="edited_%s" % focus, bucket="edited"):
+                return
+        return
 
     depth = 1 if ctx.tier == "quick" else 2
 
@@ -154,6 +204,9 @@ def run_shard(ctx, desc):
 
 def replay(ctx, doc):
     r = doc["recipe"]
+    if str(r.get("tag", "")).startswith("edited"):
+        check_edited_case(ctx, r["case"])
+        return
     if r.get("tag") == "project":
         check_project_spec(ctx, r["case"])
     else:
